@@ -36,6 +36,7 @@ from .execution import (
     record_cancel,
     record_failure,
     record_success,
+    settle,
 )
 from .retry import AsyncRetry
 from .types import (
@@ -121,6 +122,8 @@ class AsyncPolicy:
         except Exception as exc:
             self._handle_exception_call(ctx, exc, on_attempt_end)
             raise
+        finally:
+            settle(ctx)
 
     async def _call_without_retry(
         self,
@@ -230,25 +233,28 @@ class AsyncPolicy:
             if not decision.allowed:
                 return build_circuit_open_outcome(ctx, decision.state.value)
 
-        # Delegate to retry if configured
-        if self.retry is not None:
-            return await self._execute_with_retry(
-                ctx,
-                func,
-                on_metric,
-                on_log,
-                operation,
-                abort_if,
-                sleep,
-                before_sleep,
-                sleeper,
-                on_attempt_start,
-                on_attempt_end,
-                capture_timeline,
-            )
+        try:
+            # Delegate to retry if configured
+            if self.retry is not None:
+                return await self._execute_with_retry(
+                    ctx,
+                    func,
+                    on_metric,
+                    on_log,
+                    operation,
+                    abort_if,
+                    sleep,
+                    before_sleep,
+                    sleeper,
+                    on_attempt_start,
+                    on_attempt_end,
+                    capture_timeline,
+                )
 
-        # No retry - single attempt
-        return await self._execute_without_retry(ctx, func, on_attempt_start, on_attempt_end)
+            # No retry - single attempt
+            return await self._execute_without_retry(ctx, func, on_attempt_start, on_attempt_end)
+        finally:
+            settle(ctx)
 
     async def _execute_with_retry(
         self,
